@@ -304,6 +304,7 @@ impl Database {
 
         db.ensure_catalog()?;
         db.ensure_system_tables()?;
+        db.restore_next_row_id()?;
 
         let recovery_info = RecoveryInfo {
             frames_recovered,
@@ -382,6 +383,57 @@ impl Database {
         db.ensure_system_tables()?;
 
         Ok(db)
+    }
+
+    /// Row keys come from one in-memory counter.  A database that is opened again must continue
+    /// after the largest row key stored in any of its tables; starting over at 1 makes every
+    /// INSERT fail with "key already exists" until the counter has passed the stored keys.
+    fn restore_next_row_id(&self) -> Result<()> {
+        use crate::btree::BTreeReader;
+        use std::sync::atomic::Ordering;
+
+        self.ensure_file_manager()?;
+
+        let tables: Vec<(String, String)> = {
+            let catalog_guard = self.shared.catalog.read();
+            let catalog = catalog_guard.as_ref().unwrap();
+            catalog
+                .schemas()
+                .iter()
+                .flat_map(|(schema_name, schema)| {
+                    schema
+                        .tables()
+                        .keys()
+                        .map(move |table_name| (schema_name.to_string(), table_name.to_string()))
+                })
+                .collect()
+        };
+
+        let mut max_row_id = 0u64;
+        let mut file_manager_guard = self.shared.file_manager.write();
+        let file_manager = file_manager_guard.as_mut().unwrap();
+        for (schema_name, table_name) in &tables {
+            if !file_manager.table_exists(schema_name, table_name) {
+                continue;
+            }
+            let storage_arc = file_manager.table_data(schema_name, table_name)?;
+            let storage = storage_arc.read();
+            let root_page = TableFileHeader::from_bytes(storage.page(0)?)?.root_page();
+            if root_page >= storage.page_count() {
+                continue;
+            }
+            let cursor = BTreeReader::new(&storage, root_page)?.cursor_last()?;
+            if cursor.valid() {
+                if let Ok(bytes) = <[u8; 8]>::try_from(cursor.key()?) {
+                    max_row_id = max_row_id.max(u64::from_be_bytes(bytes));
+                }
+            }
+        }
+
+        self.shared
+            .next_row_id
+            .fetch_max(max_row_id.saturating_add(1), Ordering::AcqRel);
+        Ok(())
     }
 
     pub fn open_or_create<P: AsRef<Path>>(path: P) -> Result<Self> {
